@@ -424,6 +424,22 @@ def run(ctx):
         built = build_wrong(rnd, kind)
         if built:
             judge_B(ctx, {"hrp": built[0], "s": built[1], "kind": kind})
+    # ---- B2: full grid of (version symbol 0..31) x (program length 0..45) x (checksum constant) x (hrp bc/tb), each string built
+    #          by the raw reference encoder with a VALID checksum for that constant: the decoder must agree with the
+    #          reference on every cell (covers every double fault: odd v0 length with the Bech32m constant, v17 with either ...)
+    for v in range(0, 32):
+        for ln in range(0, 46):
+            n += 1
+            if not ctx.mine(n):
+                continue
+            prog = gen.rbytes(rnd, ln) if ln else b""
+            for const in (rbech.BECH32_CONST, rbech.BECH32M_CONST):
+                hrp = ("bc", "tb")[(v + ln) & 1]
+                s_ = rbech.bech_encode(hrp, [v] + rbech.to5(prog), const)
+                judge_D_diff(ctx, {"hrp": hrp, "s": s_ if rnd.random() < 0.8 else s_.upper(),
+                                   "tag": "grid-v%s-len%s-%s" % ("0" if v == 0 else ("1-16" if v <= 16 else ">16"),
+                                                                 "legal" if rbech.legal_program(v, ln) else "illegal",
+                                                                 "b32" if const == 1 else "b32m")})
     # ---- C (shard 0 only: 6 s)
     patterns = []
     if ctx.shard == 0:
